@@ -73,7 +73,12 @@ Back == /\ pos + junk > 0
         /\ path' = Append(path, "<bs>")
         /\ memo' = IF pos' + junk' = 0 THEN memo       \* backspace to empty: nothing is looked up
                    ELSE memo \cup {WordOf(SubSeq(target, 1, pos') \o JunkSeq(pos', junk'))}
-Next == Len(path) < MaxEdits /\ (Fwd \/ Junk \/ Back) /\ UNCHANGED <<target, prior, start>>
+\* a key without a character (keypad Enter, code 3612 of riti.h) in the middle of the word: nothing changes, the list is
+\* computed again for the same text (at most one per path)
+NoChar == /\ pos + junk > 0 /\ "<nochar>" \notin {path[i] : i \in 1..Len(path)}
+          /\ Len(path) >= MaxEdits - 2 /\ Len(prior) = 0      \* (as one of the last two steps of a path, without earlier words)
+          /\ path' = Append(path, "<nochar>") /\ UNCHANGED <<pos, junk, memo>>
+Next == Len(path) < MaxEdits /\ (Fwd \/ Junk \/ Back \/ NoChar) /\ UNCHANGED <<target, prior, start>>
 Spec == Init /\ [][Next]_vars
 
 \* the prefixes of the current word the suffix path looks up
@@ -102,8 +107,9 @@ Other == 2 + ((Len(target) + Len(path) + Len(prior)) % 3)
 EditSteps == [i \in 1..(2 * Len(path)) |->
                  IF i % 2 = 0
                  THEN (IF path[i \div 2] = "<bs>" THEN [op |-> "bs", text |-> <<>>, sel |-> 0, ctx |-> 1, ctrl |-> FALSE]
+                       ELSE IF path[i \div 2] = "<nochar>" THEN [op |-> "keycode", text |-> <<>>, sel |-> 0, ctx |-> 1, ctrl |-> FALSE, code |-> 3612]
                        ELSE TypeStep(<<path[i \div 2]>>, 1))
-                 ELSE (IF path[(i + 1) \div 2] = "<bs>" THEN TypeStep(<<"k">>, Other) ELSE TypeStep(<<path[(i + 1) \div 2]>>, Other))]
+                 ELSE (IF path[(i + 1) \div 2] \in {"<bs>", "<nochar>"} THEN TypeStep(<<"k">>, Other) ELSE TypeStep(<<path[(i + 1) \div 2]>>, Other))]
 RunA(c) == <<[op |-> "new", cfg |-> c]>> \o PriorSteps \o <<TypeStep(SubSeq(target, 1, start), Other), TypeStep(SubSeq(target, 1, start), 1)>> \o EditSteps
 RunB(c) == <<[op |-> "new", cfg |-> c], TypeStep(Cur, 1)>>
 Scenario(c) ==
@@ -114,7 +120,7 @@ Scenario(c) ==
 \* emitted when the surviving text is a non-empty prefix of the target and the path did some editing or the
 \* context is warm (plain typing into a fresh context is the reference itself)
 Edited == \E i \in 1..Len(path) : path[i] = "<bs>"
-Emit == (junk = 0 /\ pos > 0 /\ path # <<>> /\ path[Len(path)] # "<bs>" /\ (Edited \/ prior # <<>>)) =>
+Emit == (junk = 0 /\ pos > 0 /\ path # <<>> /\ path[Len(path)] # "<bs>" /\ (Edited \/ prior # <<>> \/ "<nochar>" \in {path[i] : i \in 1..Len(path)})) =>
            \A c \in CfgSet : PrintT(<<"REPLAY", ToJson(Scenario(c))>>)
 \* ... and the histories that END in a backspace (the suggestion is recomputed by the backspace)
 EmitBs == (junk = 0 /\ pos > 0 /\ path # <<>> /\ path[Len(path)] = "<bs>") =>
